@@ -442,9 +442,12 @@ def uid_wrapper(work):
     f = os.path.join(d, "secret")
     open(f, "w").write("x")
     os.chmod(f, 0)
+    g = os.path.join(d, "public")
+    open(g, "w").write("x")
+    os.chmod(g, 0o644)
     for pre in (["setpriv", "--reuid=65534", "--regid=65534", "--clear-groups"],):
-        rc0, _, _ = vlib.sh(pre + ["/bin/true"], timeout=20)
-        rc1, _, _ = vlib.sh(pre + ["/bin/cat", f], timeout=20)
+        rc0, _, _ = vlib.sh(pre + ["/bin/cat", g], timeout=20)      # the scratch tree is reachable for that uid
+        rc1, _, _ = vlib.sh(pre + ["/bin/cat", f], timeout=20)      # and chmod 000 really blocks it
         if rc0 == 0 and rc1 != 0:
             return pre, True
     return [], False
